@@ -138,21 +138,44 @@ func inLine(input []byte) (line string, tree *J, parses bool) {
 
 // matchMultiset: every model element matches a distinct implementation element
 func matchMultiset(model, impl []*J) bool {
-	if len(model) != len(impl) {
-		return false
-	}
+	a, b := multisetDiff(model, impl)
+	return len(a) == 0 && len(b) == 0
+}
+
+// multisetDiff: model elements without partner, implementation elements without partner.
+// Elements with an opaque part are matched last so that they do not steal exact partners.
+func multisetDiff(model, impl []*J) (onlyModel, onlyImpl []*J) {
 	used := make([]bool, len(impl))
-outer:
-	for _, m := range model {
-		for i, x := range impl {
-			if !used[i] && sameModelImpl(m, x) {
-				used[i] = true
-				continue outer
+	hasOpaque := func(j *J) bool { return strings.Contains(j.String(), `\u0001?`) }
+	for pass := 0; pass < 2; pass++ {
+	outer:
+		for _, m := range model {
+			if hasOpaque(m) != (pass == 1) {
+				continue
 			}
+			for i, x := range impl {
+				if !used[i] && sameModelImpl(m, x) {
+					used[i] = true
+					continue outer
+				}
+			}
+			onlyModel = append(onlyModel, m)
 		}
-		return false
 	}
-	return true
+	for i, x := range impl {
+		if !used[i] {
+			onlyImpl = append(onlyImpl, x)
+		}
+	}
+	return
+}
+
+func listText(xs []*J) string {
+	parts := make([]string, len(xs))
+	for i, x := range xs {
+		parts[i] = x.String()
+	}
+	return strings.Join(parts, " ; ")
 }
 
 // sameModelImpl: sameJSON, except that the key list of "unexpected params: …" has Go map order
@@ -213,8 +236,8 @@ func compare(answer string, o Obs, batchShaped bool) string {
 			return "one side is silent"
 		}
 	case mbody.K == '[' && ibody.K == '[' && batchShaped:
-		if !matchMultiset(mbody.A, ibody.A) {
-			return "batch responses differ (as multisets)"
+		if a, b := multisetDiff(mbody.A, ibody.A); len(a)+len(b) > 0 {
+			return "batch responses differ (as multisets): only model: " + listText(a) + " | only implementation: " + listText(b)
 		}
 	default:
 		if !sameModelImpl(mbody, ibody) {
@@ -338,6 +361,9 @@ func (rn *runner) check(w *World, input []byte, answer string, tree *J, parses b
 	}
 	res.Compared(1)
 	if why := compare(answer, o, parses && tree.K == '['); why != "" && !o.Hung && !o.Panicked {
+		if len(why) > 1500 {
+			why = why[:1500]
+		}
 		res.Mismatch(lib.Mismatch{Sig: "dispatch: " + why, Input: map[string]any{"world": w.Spec, "input": describe(input)},
 			Model: modelText(answer), Impl: map[string]string{"out": string(o.Out), "calls": callsText(o.Calls)}})
 	}
@@ -402,6 +428,19 @@ func main() {
 	}
 	rn := &runner{f: f, res: res, drv: drv, cfg: cfg}
 
+	if one := os.Getenv("C11_INPUT"); one != "" { // developer aid: one input on the fixed world, verbose
+		spec := fixedWorld(os.Getenv("C11_NOBATCH") != "", 4)
+		w, _ := NewWorld(spec)
+		_ = rn.setWorld(w)
+		line, _, _ := inLine([]byte(one))
+		ans, _ := drv.Ask(line)
+		o := w.handle([]byte(one))
+		fmt.Printf("model: %s\nimpl : %s\ncalls: %s\ncompare: %q\n", modelText(ans), o.Out, callsText(o.Calls), compare(ans, o, true))
+		for _, v := range judge(w, []byte(one), o) {
+			fmt.Printf("verdict %s: %s\n", v.Sig, v.What)
+		}
+		os.Exit(0)
+	}
 	if f.Replay != "" {
 		var file struct {
 			Replay replayT `json:"replay"`
